@@ -1053,6 +1053,7 @@ class MultiColumnReader(ColumnReader):
         else:
             assert len(offsets) == len(readers)
             self._doc_offsets = offsets
+            self._doccount = sum(len(r) for r in readers)
 
     def _document_reader(self, docnum):
         return max(0, bisect_right(self._doc_offsets, docnum) - 1)
